@@ -76,6 +76,7 @@ Inductive stmt :=
 | SParse (p : psrc).                       (* actual := _parse_documented_type(type_=p, context=context) *)
 
 Record parse_cfg := {
+  pc_none : option exn;                    (* if type_ is None: raise ...   (first statement; absent: `in` raises TypeError) *)
   pc_guard : option (string * exn);        (* if '<needle>' in type_: raise ... *)
   pc_catch : list (exn * exn) }.           (* try: return eval(...)  except C: raise R *)
 
@@ -93,8 +94,7 @@ Record dprog := {
      str(type_).startswith('typing') or GenericAlias -> recurse into get_type_arguments(type_);
                                                        an argument that is a list is also entered
      hasattr(type_, '__name__')                     -> context[type_.__name__] = type_
-   A types.UnionType `X | Y` has no __name__ and its str() is 'X | Y': nothing is added, unless the
-   first member is typing.Any, whose repr makes the str() start with 'typing'.
+   A types.UnionType `X | Y` is entered like a typing object (isinstance(type_, (GenericAlias, UnionType))).
    get_type_arguments re-packs the arguments of typing.Callable as ([params], result); the members
    of that list are visited, but a list among them is not entered a second time.               *)
 Definition is_typing_callable (g : gname) : bool :=
@@ -108,15 +108,15 @@ Fixpoint upd (t : ty) : list string :=
       if is_typing_callable g
       then flat_map upd l
       else flat_map (fun a => match a with TLst m => flat_map upd m | x => upd x end) l
-  | TPipe (TAny :: r) => flat_map upd r    (* str(Any | X) is 'typing.Any | X': "starts with typing"; Any itself adds nothing *)
-  | _ => []                                (* None, ..., Any, typing.List, tuples, lists, other X | Y: nothing *)
+  | TPipe l => flat_map upd l              (* types.UnionType: get_type_arguments returns its members *)
+  | _ => []                                (* None, ..., Any, typing.List, tuples, lists: nothing *)
   end.
 
 (* The names `eval` will find when the documented type of an annotation is evaluated: the context
    collected so far, and the globals of check_docstring.py.  `ctx_covers [] annotations` says that
    every class an annotation mentions can be named at the moment its entry is parsed.  It holds
-   whenever no user class occurs under an `X | Y` union (Proofs: no_pipe_ctx_covers); on the rest
-   _update_context misses names (open finding C19-pipe-union-context).                           *)
+   for every signature whose annotations are typing objects (Proofs: ann_ok_ctx_covers); before the
+   fix 2108a61 _update_context missed the classes under `X | Y` (finding C19-pipe-union-context). *)
 Fixpoint ctx_covers (ctx : list string) (ann : list (string * ty)) : bool :=
   match ann with
   | [] => true
@@ -203,7 +203,11 @@ Section Interp.
   (* _parse_documented_type(type_, context, err) *)
   Definition parse_type (pc : parse_cfg) (ctx : list string) (ot : option dtype) : outcome ty :=
     match ot with
-    | None => Raise TypeErrorC      (* `'typing.' in None` / eval(None): both TypeError *)
+    | None =>
+        match pc_none pc with
+        | Some e => Raise e
+        | None => Raise TypeErrorC  (* `'typing.' in None` / eval(None): both TypeError *)
+        end
     | Some d =>
         let run :=
           match eval ctx (dt_expr d) with
@@ -325,4 +329,5 @@ Definition canonical : dprog := {|
          SPick 0;
          SParse PPickedType;
          SIfRaise (BNot (BTyEq RExpected RActual)) PDocstringC ]) ];
-  dp_parse := {| pc_guard := Some ("typing.", PDocstringC); pc_catch := [(NameErrorC, PDocstringC)] |} |}.
+  dp_parse := {| pc_none := Some PDocstringC; pc_guard := Some ("typing.", PDocstringC);
+                 pc_catch := [(NameErrorC, PDocstringC)] |} |}.
